@@ -323,7 +323,132 @@ def add_docs(rng, prog):
                     e["doc"] = overview() or None
 
 
+def written_program(rng):
+    """a program whose request content is known from the source alone: a chain of aliases with attributes at every link, used with further attributes at
+    the use site (fields, optional fields, sequence elements, parameters, return members); links written in @param and @returns messages"""
+    I = lambda k: "A%d" % k
+    def some_attrs(tag):
+        out = []
+        for j in range(rng.choice([0, 1, 1, 2])):
+            out.append(("x::%s%d" % (tag, j), [rng.choice(["v", "two words", "ü", "q,r"]) for _ in range(rng.choice([0, 0, 1, 2]))]))
+        return out
+    L = rng.choice([1, 2, 2, 3, 4])
+    base = rng.choice(["int32", "string", "T1"])
+    link_attrs = [some_attrs("a%d_" % k) for k in range(L)]
+    lines = ["module M", "struct T1 {}", "struct T2 {}", "custom C1"]
+    for k in range(L):
+        lines.append("typealias %s = %s%s" % (I(k), slicegen.r_attrs(link_attrs[k]), base if k == 0 else I(k - 1)))
+    def through(k):
+        """the attributes an alias contributes: its own link's, then those of the aliases below it"""
+        return [a for j in range(k, -1, -1) for a in link_attrs[j]]
+    expect = {"fields": [], "params": [], "rets": []}
+    fl = []
+    for i in range(rng.choice([1, 2, 3])):
+        k, site, form = rng.randrange(L), some_attrs("s%d_" % i), rng.choice(["plain", "plain", "opt", "seq"])
+        if form == "seq":
+            fl.append("f%d: Sequence<%s%s>" % (i, slicegen.r_attrs(site), I(k)))
+        else:
+            fl.append("f%d: %s%s%s" % (i, slicegen.r_attrs(site), I(k), "?" if form == "opt" else ""))
+        expect["fields"].append(("f%d" % i, form, site + through(k)))
+    lines.append("struct S { %s }" % ", ".join(fl))
+    targets = [("::M::T1", "M::T1"), ("M::T2", "M::T2"), ("T2", "M::T2"), ("::M::C1", "M::C1"), ("::M::S", "M::S"), ("T1", "M::T1"), ("I", "M::I"), ("M::I::op", "M::I::op"), ("S::f0", "M::S::f0")]
+    def links():
+        ls = [rng.choice(targets) for _ in range(rng.choice([0, 1, 1, 2]))]
+        return " ".join(rng.choice(["see", "and", "x"]) + " {@link %s}" % w for w, _ in ls), [t for _, t in ls]
+    doc, ps, rs = [], [], []
+    for i in range(rng.choice([0, 1, 2])):
+        k, site = rng.randrange(L), some_attrs("p%d_" % i)
+        text, ids = links()
+        if rng.random() < 0.8:
+            doc.append("    /// @param p%d: %s" % (i, text))
+        else:
+            ids = None
+        ps.append("p%d: %s%s" % (i, slicegen.r_attrs(site), I(k)))
+        expect["params"].append(("p%d" % i, site + through(k), ids))
+    nr = rng.choice([0, 1, 2, 2])
+    for i in range(nr):
+        k, site = rng.randrange(L), some_attrs("r%d_" % i)
+        text, ids = links()
+        if rng.random() < 0.8:
+            doc.append("    /// @returns%s: %s" % (" r%d" % i if nr > 1 else "", text))
+        else:
+            ids = None
+        rs.append(("r%d: " % i if nr > 1 else "") + slicegen.r_attrs(site) + I(k))
+        expect["rets"].append(("r%d" % i if nr > 1 else "returnValue", site + through(k), ids))
+    rng.shuffle(doc)       # tags in any order: each is matched by name, not by position
+    # tags of one kind keep their relative order (a later duplicate is ignored); names are distinct here, so any order is fine
+    ret = "" if nr == 0 else (" -> " + rs[0] if nr == 1 else " -> (%s)" % ", ".join(rs))
+    lines += ["interface I {"] + doc + ["    op(%s)%s" % (", ".join(ps), ret), "}"]
+    expect["base"] = "int32" if base == "int32" else ("string" if base == "string" else "M::T1")
+    return "\n".join(lines) + "\n", expect
+
+
+def written_stream(ck):
+    rng = ck.rng
+    n = 300 if ck.tier == "quick" else 3000
+    ck.stream("written-in-source", description="programs whose request content is known from the source alone (not from the compiled AST): chains of 1-4 aliases with attributes at every link, used with "
+              "further attributes at the use site by fields (plain, optional, sequence elements), parameters and return members -- every such type reference must arrive with the use site's attributes followed by "
+              "those of every alias of the chain, outermost first, and with the final type's id; links written in @param and @returns messages must arrive with the documentation of that parameter or return member, resolved")
+    progs, lines = [], []
+    for _ in range(n):
+        text, expect = written_program(rng)
+        progs.append((text, expect))
+        lines.append("run 0 - G gen-ok-1:-:- F S:%s:%s" % (hx("w.slice"), hx(text)))
+    env = dict(os.environ, **ENV)
+    o = core.run_lines([core.HARNESS, "run"], lines, chunk=25, timeout=300, env=env)
+    reqs, idx = [], []
+    for i, ((text, expect), oo) in enumerate(zip(progs, o)):
+        ck.count("written-in-source", text, kind="chain of %d" % text.count("typealias"))
+        parts = oo.split(" || ")
+        if len(parts) != 6 or parts[0] != "exit=0":
+            ck.violation("written-in-source", "valid-program-rejected", text, "exit=0", oo[:300])
+            continue
+        sin = dict((x.split(":")[0], x.split(":")[1:]) for x in parts[1].split(" ") if x).get("gen-ok-1", ["0", "none"])[1]
+        reqs.append("req " + sin)
+        idx.append(i)
+    m = core.run_model("request", reqs, chunk=200)
+    A = lambda attrs: ["q"] + [["r", s_(d), ["q"] + [s_(a) for a in args]] for d, args in attrs]
+    for i, mo in zip(idx, m):
+        text, expect = progs[i]
+        if not mo.startswith("ok "):
+            ck.violation("written-in-source", "request-not-decodable", text, "decodes", mo[:200])
+            continue
+        req = parse_sexp(mo.split(" ", 3)[3])[0]
+        try:
+            contents = req[2][1][4]
+            sym = lambda tag, name: next(x[2] for x in contents[1:] if x[1] == tag and x[2][1][1] == s_(name))
+            bad = None
+            S = sym("3", "S")
+            for (fname, form, attrs), f in zip(expect["fields"], S[3][1:]):
+                tr = f[3]
+                if form == "seq":
+                    tr = contents[1:][int(unhx(tr[1][2:]))][2][1]
+                    want_opt = "f"
+                else:
+                    want_opt = "t" if form == "opt" else "f"
+                if tr[1] != s_(expect["base"]) or tr[2] != want_opt or tr[3] != A(attrs):
+                    bad = ("type-reference-differs-from-source", "field %s: %s%s with attributes %s" % (fname, expect["base"], "?" if want_opt == "t" else "", attrs), repr(tr))
+            op = sym("0", "I")[3][1]
+            for what, exp_list, got_list in (("parameter", expect["params"], op[3][1:]), ("return member", expect["rets"], op[5][1:])):
+                if len(exp_list) != len(got_list):
+                    bad = ("member-count-differs-from-source", "%d %ss" % (len(exp_list), what), str(len(got_list)))
+                    continue
+                for (name, attrs, ids), g in zip(exp_list, got_list):
+                    tr = g[3]
+                    if g[1][1] != s_(name) or tr[1] != s_(expect["base"]) or tr[3] != A(attrs):
+                        bad = ("type-reference-differs-from-source", "%s %s: %s with attributes %s" % (what, name, expect["base"], attrs), repr(g)[:400])
+                    got_ids = None if g[1][3] == "-" else [x[2] for x in g[1][3][1][1:] if x[1] == "1"]
+                    if got_ids != (None if ids is None else [s_(t) for t in ids]):
+                        bad = ("documentation-differs-from-source", "%s %s documented with links to %s" % (what, name, ids), "links %s" % (None if got_ids is None else [unhx(x[2:]) for x in got_ids]))
+            if bad:
+                ck.violation("written-in-source", bad[0], text, bad[1], bad[2])
+        except (StopIteration, IndexError, ValueError, TypeError) as e:
+            ck.violation("written-in-source", "request-shape", text, "the struct S and the interface I of the source", repr(e) + " " + mo[:300])
+    ck.samples.append({"stream": "written-in-source", "case": progs[0][0][:300], "impl": o[0][:200], "model": m[0][:300] if m else None})
+
+
 def run(ck):
+    written_stream(ck)
     rng = ck.rng
     n = 1200 if ck.tier == "quick" else 12000
     lines, metas = [], []
